@@ -139,17 +139,10 @@ Fixpoint define (stk : list scope) (x : name) : list scope :=
     end
   end.
 
-(* `for name in node.names: if P name: node.names.remove(name)` on the live list *)
-Fixpoint live_remove_loop (fuel i : nat) (names : list name) (P : name -> bool) : list name :=
-  match fuel with
-  | O => names
-  | S f =>
-    match nth_error names i with
-    | None => names
-    | Some x => if P x then live_remove_loop f (S i) (remove_first x names) P
-                else live_remove_loop f (S i) names P
-    end
-  end.
+(* ScopeLet.define_nonlocal: `for name in list(node.names): if P name: node.names.remove(name)` --
+   the loop runs over a copy, each removal takes the first occurrence out of the live list *)
+Definition elide (P : name -> bool) (names : list name) : list name :=
+  fold_left (fun acc x => if P x then remove_first x acc else acc) names names.
 
 Inductive error :=
 | ErrDeclAfterUse (x : name) (root : decl_root)   (* name 'x' is declared global/nonlocal after being used *)
@@ -188,8 +181,7 @@ Fixpoint let_define_nonlocal (stk : list scope) (c : cells) (l : nat) (root : de
         match root with
         | RNonlocal =>
             let names' := if self then names
-                          else live_remove_loop (S (length names)) 0 names
-                                 (fun x => match lookup x (s_bindings s) with Some _ => true | None => false end) in
+                          else elide (fun x => match lookup x (s_bindings s) with Some _ => true | None => false end) names in
             match let_define_nonlocal rest (set_cell c l names') l root false with
             | inl (rest', c') => inl (s :: rest', c')
             | inr e => inr e
